@@ -189,6 +189,9 @@ struct qb_ipcs_connection {
 	int32_t fc_enabled;
 	int32_t poll_events;
 	int32_t outstanding_notifiers;
+	/* connection_closed() has been called and does not have to be called
+	 * (again) by qb_ipcs_disconnect(); cleared by the re-run job it asks for */
+	int32_t closed_notified;
 	char description[CONNECTION_DESCRIPTION];
 	struct qb_ipcs_connection_stats_2 stats;
 };
